@@ -119,7 +119,7 @@ var nestDef = typeDef{name: "nest", tagged: true, leaves: []leafDef{
 		set: func(c any, v value) { c.(*NestCfg).Server.Port = int(v.i) }},
 	{name: "Server.Limits.MaxConn", kind: kInt, rule: rNonNeg, tagPath: []string{"server", "limits", "max_conn"},
 		env: "SERVER_LIMITS_MAX_CONN", flag: "server-limits-max_conn",
-		set: func(c any, v value) { c.(*NestCfg).Server.Limits.MaxConn = int(v.i) }},
+		set: func(c any, v value) { c.(*NestCfg).Server.Limits.MaxConn = int(v.i) }}, // (Limits is allocated by newConfig)
 	{name: "Server.Limits.Idle", kind: kDur, tagPath: []string{"server", "limits", "idle"},
 		env: "SERVER_LIMITS_IDLE", flag: "server-limits-idle",
 		set: func(c any, v value) { c.(*NestCfg).Server.Limits.Idle = v.d }},
@@ -166,6 +166,23 @@ var splitDef = typeDef{name: "split", tagged: true, leaves: []leafDef{
 	{name: "Inner.Depth", kind: kUint16, tagPath: []string{"inner", "depth"}, env: "INNER_DEPTH", flag: "inner-depth",
 		set: func(c any, v value) { c.(*SplitCfg).Inner.Depth = uint16(v.i) }},
 }}
+
+// newConfig returns an empty config of the named type with its pointer-typed
+// struct fields allocated: the defaults always hold non-nil pointers, and so
+// does every expected config.
+func newConfig(name string) any {
+	switch name {
+	case "flat":
+		return &FlatCfg{}
+	case "nest":
+		return &NestCfg{Server: NestServer{Limits: &NestLimits{}}}
+	case "plain":
+		return &PlainCfg{DB: &PlainDB{}}
+	case "split":
+		return &SplitCfg{}
+	}
+	panic("unknown type " + name)
+}
 
 var typeDefs = map[string]*typeDef{"flat": &flatDef, "nest": &nestDef, "plain": &plainDef, "split": &splitDef}
 var typeNames = []string{"flat", "nest", "plain", "split"}
